@@ -41,6 +41,8 @@ pub struct SynFeatures {
     pub big_block: bool,
     pub max_dist: usize,
     pub dist_eq_pos: usize,
+    /// the stream is deliberately invalid (length symbol without a usable distance code)
+    pub poisoned: bool,
     pub mode: &'static str,
 }
 
@@ -118,6 +120,9 @@ impl SynFeatures {
         }
         if self.references > 0 {
             v.push("syn:has-references");
+        }
+        if self.poisoned {
+            v.push("syn:INVALID-length-symbol-without-distance-code");
         }
         v
     }
@@ -299,10 +304,52 @@ fn build_random_code(
             }
         }
     }
+    // sometimes every symbol of the alphabet gets a code (legal; makes large same-length
+    // groups such as 256 symbols of one length reachable)
+    if alpha > 30 && mix.chance(12) {
+        for s in 0..spare_limit.min(alpha) {
+            if !syms.contains(&s) {
+                syms.push(s);
+                spares += 1;
+            }
+        }
+    }
     *spare_count += spares;
     let n = syms.len();
     let style = mix.below(10);
-    let mut depths = random_complete_depths(n, maxdepth, mix, style < 3);
+    let mut depths: Vec<u8>;
+    let group_style = n >= 8 && mix.chance(25);
+    let mut grouped_ok = false;
+    depths = vec![];
+    if group_style {
+        // k "short" symbols in a random tree plus one balanced subtree holding the other m
+        // symbols: many symbols share one length; m is biased to the 8-bit boundary
+        let m_choices = [255usize, 256, 257, 128, 64, n - 1, n - 2, n / 2];
+        let mut m = m_choices[mix.below(m_choices.len())];
+        if m >= n {
+            m = n - 1;
+        }
+        if m >= 2 {
+            let k = n - m;
+            let need = (usize::BITS - (m - 1).leading_zeros()) as u8; // ceil(log2 m)
+            if need < maxdepth {
+                let topmax = maxdepth - need;
+                if k + 1 >= 2 && (k + 1) <= (1usize << topmax.min(20)) {
+                    let top = random_complete_depths(k + 1, topmax, mix, false);
+                    // group root = shallowest leaf
+                    let (ri, &r) = top.iter().enumerate().min_by_key(|(_, &d)| d).unwrap();
+                    let sub = random_complete_depths(m, maxdepth - r, mix, true);
+                    let mut d: Vec<u8> = top.iter().enumerate().filter(|(i, _)| *i != ri).map(|(_, &x)| x).collect();
+                    d.extend(sub.iter().map(|&x| x + r));
+                    depths = d;
+                    grouped_ok = true;
+                }
+            }
+        }
+    }
+    if !grouped_ok {
+        depths = random_complete_depths(n, maxdepth, mix, style < 3);
+    }
     // assign depths: either randomly, or shorter codes to more frequent symbols
     if let (Some(f), true) = (freq, style >= 5) {
         depths.sort();
@@ -775,6 +822,13 @@ fn fixed_lengths() -> (Vec<u8>, Vec<u8>) {
 }
 
 fn emit_tokens(w: &mut BitW, toks: &[Tok], lit_len: &[u8], dist_len: &[u8]) {
+    emit_tokens_poison(w, toks, lit_len, dist_len, None)
+}
+
+/// `poison`: a literal/length symbol (with 13 arbitrary bits after it) written before the
+/// end-of-block symbol: used to build INVALID streams, e.g. a length symbol in a block whose
+/// header declares no distance code at all
+fn emit_tokens_poison(w: &mut BitW, toks: &[Tok], lit_len: &[u8], dist_len: &[u8], poison: Option<(usize, u32)>) {
     let lit_codes = canonical_codes(lit_len);
     let dist_codes = canonical_codes(dist_len);
     for t in toks {
@@ -792,6 +846,12 @@ fn emit_tokens(w: &mut BitW, toks: &[Tok], lit_len: &[u8], dist_len: &[u8]) {
                 w.put_code(dist_codes[ds], dist_len[ds]);
                 w.put(dv as u32, db as u32);
             }
+        }
+    }
+    if let Some((sym, bits)) = poison {
+        if lit_len[sym] != 0 {
+            w.put_code(lit_codes[sym], lit_len[sym]);
+            w.put(bits, 13);
         }
     }
     w.put_code(lit_codes[256], lit_len[256]);
@@ -968,6 +1028,18 @@ pub fn encode_tokens(
                         }
                     }
                 }
+                // INVALID-by-construction variant: a length symbol used in a block without
+                // references (so the header may declare a single or no distance code)
+                let has_refs = dist_used.iter().any(|&b| b);
+                let mut poison = None;
+                if exotic && !has_refs && mix.chance(40) {
+                    let sym = 257 + mix.below(29);
+                    lit_used[sym] = true;
+                    lit_freq[sym] = 1;
+                    poison = Some((sym, mix.next() as u32 & 0x1fff));
+                    feat.poisoned = true;
+                    zlib_ok = false;
+                }
                 let (ll, dl) = emit_dynamic_header(
                     &mut w,
                     &lit_used,
@@ -984,7 +1056,7 @@ pub fn encode_tokens(
                 ll2.resize(288, 0);
                 let mut dl2 = dl.clone();
                 dl2.resize(32, 0);
-                emit_tokens(&mut w, btoks, &ll2, &dl2);
+                emit_tokens_poison(&mut w, btoks, &ll2, &dl2, poison);
             }
         }
         ppos += plen;
